@@ -59,6 +59,7 @@ pub fn run_scenario(sc: &Scenario) -> RunReport {
             let mut report = rt.block_on(async {
                 match sc.world.as_str() {
                     "cluster" => Cluster::new(&sc, &dir2).run().await,
+                    "store" => crate::storew::run(&sc, &dir2).await,
                     "rsender" => crate::rsender::run(&sc).await,
                     "puppet" => crate::puppet::Puppet::new(&sc, &dir2).run().await,
                     other => RunReport { harness_error: Some(format!("unknown world {}", other)), ..Default::default() },
@@ -69,6 +70,17 @@ pub fn run_scenario(sc: &Scenario) -> RunReport {
             store::verif_tap::install(None);
             crate::entropy::set_thread_seed(None);
             report.panics = PANICS.with(|p| p.borrow().clone());
+            // A panic inside the code under test is a C15 violation (a cross-observation for
+            // the other checks); the rule carries the location so that classes stay distinct.
+            for line in report.panics.clone() {
+                if line.starts_with("/repo/") {
+                    let loc = line.split(" :: ").next().unwrap_or("").to_string();
+                    let rule = format!("panic.{}", loc.trim_start_matches("/repo/").replace('/', "_"));
+                    if !report.violations.iter().any(|v| v.prop == "C15" && v.rule == rule) {
+                        report.violations.push(crate::obs::Violation { prop: "C15".into(), rule, detail: format!("code under test panicked: {}", line), seq: 0, t_us: report.virt_us, node: None });
+                    }
+                }
+            }
             report
         })
         .expect("spawn run thread");
